@@ -149,13 +149,20 @@ def save_regs(chk, repo):
     f = repo.func(sym)
     chk.analysed(sym)
     tmp = find("exitStack.enter_context(self.get_free_register(None))", f)
-    sv = find("self.append(Opcode.MOV + Opcode.LONG + Opcode.REG, tmp, i, 0,"
+    mv = find("self.append(Opcode.MOV + Opcode.LONG + Opcode.REG, $a, $b, 0,"
               " 0)", f)
-    rs = find("self.append(Opcode.MOV + Opcode.LONG + Opcode.REG, i, tmp, 0,"
-              " 0)", f)
-    stores = [c for c in calls_in(f) if "ST" in unparse(c.args[0])
-              ] if False else []
-    ok = len(tmp) == 1 and len(sv) == 1 and len(rs) == 1
+    ys0 = [y for y in walk_no_nested(f) if isinstance(y, ast.Yield)]
+    yl = ys0[0].lineno if ys0 else 0
+    sv = [(c, b) for c, b in mv if c.lineno < yl]
+    rs = [(c, b) for c, b in mv if c.lineno > yl]
+    ok = len(tmp) == 1 and len(sv) == 1 and len(rs) == 1 and \
+        unparse(sv[0][1]["a"]) == unparse(rs[0][1]["b"]) and \
+        unparse(sv[0][1]["b"]) == unparse(rs[0][1]["a"])
+    if ok:
+        # the scratch register is the one obtained from get_free_register
+        st = stmt_of(tmp[0][0])
+        ok = isinstance(st, ast.Assign) and unparse(st.targets[0]) == \
+            unparse(sv[0][1]["a"])
     chk.ob("R04.5", sym, "saved values are parked in free registers and "
            "moved back", ok, f, "64-bit register moves to and from a "
            "register obtained from get_free_register; no stack slot is "
